@@ -6,6 +6,15 @@ from props import valuegen as G
 PID = 'C04'
 TARGETS = ['props/C04.vo', 'theories/ValueOracle.vo']
 LEVEL = 'proof'
+
+MANIFEST = dict(
+    text='Theorems (Coq, unbounded): the emitted map is a function of the multiset of entries and strictly ascending in '
+         '(len, bytes) of the encoded key (C04_dict_canonical); the bytes of a multi-asset/Value depend only on content '
+         '(C04_bundle_canonical, C04_value_canonical, C04_history over arbitrary operation histories); no zero/empty entries; '
+         'bare integer without assets. Model tied to the code by correspondence (model bytes = to_cbor bytes) and the property '
+         'oracle (Coq decoder + canonical-form check) is evaluated on the implementation bytes.',
+    note='Trusted: Coq kernel+vm_compute; hand model Value.v/Cbor.v validated by differential runs; generator; driver. No axioms.',
+    technique='Coq proof (sorting uniqueness, permutation, content abstraction) + model/implementation correspondence', ref='C04')
 TRUSTED = [
     'Coq 8.16.1 kernel incl. vm_compute (no native_compute); no axioms (see Print Assumptions lines)',
     'hand model coq/theories/Value.v (operators, ksort = DictCBORSerializable.to_shallow_primitive, value_prim) and '
